@@ -316,7 +316,7 @@ func main() {
 	samples := []string{}
 	for i := 0; i < n; i++ {
 		r := &rng{s: seed*1000003 + uint64(i)}
-		sp := genSpec(r, genOpts{MaxDepth: 1 + i%3, Special: i%4 == 2, Clones: i%3 != 0, CaseTwin: i%5 == 1})
+		sp := genSpec(r, genOpts{MaxDepth: 1 + i%3, Special: i%4 == 2, Clones: i%3 != 0, CaseTwin: i%5 == 1, NonASCII: i%4 == 3, Huge: i%24 == 13})
 		if i%8 == 5 { // guaranteed deep nesting: 3..5 multiplexer levels around an enum with values
 			addDeepChain(sp, r, 3+(i/8)%3)
 		}
